@@ -61,6 +61,49 @@ def composite_history(rng, al, length):
             n += 1
         else:
             steps.append(H.query_step(al, rng, s))
+    x, y = al.v(0), al.v(1 % al.nvars)
+    m = (1 << al.w) - 1
+    k = rng.random()
+    if k < 0.25:
+        # children enumerated on their own, then joined by a constraint that most cached models satisfy
+        a_, b_ = al.k(), al.k()
+        pat = [
+            {"op": "add", "s": 0, "cons": [["ule", x, ["bvv", rng.choice([2, 3, m // 2]), al.w]]]},
+            {"op": "add", "s": 0, "cons": [["uge", y, ["bvv", rng.choice([m - 2, m - 3, m // 2]), al.w]]]},
+            {"op": "eval", "s": 0, "e": x, "n": 70, "extra": []},
+            {"op": "eval", "s": 0, "e": y, "n": 70, "extra": []},
+            {"op": rng.choice(["max", "min"]), "s": 0, "e": y, "signed": False, "extra": []},
+            {"op": "add", "s": 0, "cons": [rng.choice([["bor", ["ne", x, a_], ["ne", y, b_]], ["ne", ["add", x, y], a_], ["bor", ["ult", x, y], ["eq", x, a_]]])]},
+            {"op": "eval", "s": 0, "e": y, "n": 70, "extra": []},
+            {"op": "eval", "s": 0, "e": x, "n": 70, "extra": []},
+            {"op": "min", "s": 0, "e": y, "signed": False, "extra": []},
+            {"op": "max", "s": 0, "e": x, "signed": False, "extra": []},
+            {"op": "batch_eval", "s": 0, "es": [x, y], "n": 300, "extra": []},
+        ]
+        pos = rng.randrange(0, min(3, len(steps) + 1))
+        steps[pos:pos] = pat
+    elif k < 0.45:
+        # a merge of three whose first two share a child that the third never had
+        g = ["bvs", "guard3", 3]
+        base = len([1 for st in steps if st["op"] in ("branch", "combine", "merge")]) + 1  # index the next new solver gets
+        pat = [
+            {"op": "add", "s": 0, "cons": [["ugt", x, ["bvv", 0, al.w]]]},
+            {"op": "branch", "s": 0},  # base+0: t
+            {"op": "add", "s": base, "cons": [["ult", x, ["bvv", rng.choice([3, 5, m]), al.w]]]},
+            {"op": "branch", "s": base},  # base+1
+            {"op": "branch", "s": base},  # base+2
+            {"op": "branch", "s": 0},  # base+3 : from the weaker solver
+            {"op": "add", "s": base + 1, "cons": [al.constraint()]},
+            {"op": "merge", "s": base + 1, "others": [base + 2, base + 3], "conds": [["eq", g, ["bvv", i, 3]] for i in range(3)], "anc": None},  # base+4
+            {"op": "max", "s": base + 4, "e": x, "signed": False, "extra": []},
+            {"op": "eval", "s": base + 4, "e": x, "n": 70, "extra": []},
+            {"op": "satisfiable", "s": base + 4, "extra": [["eq", x, ["bvv", m, al.w]]]},
+            {"op": "eval", "s": base + 4, "e": g, "n": 9, "extra": [["eq", x, ["bvv", m, al.w]]]},
+            {"op": "merge", "s": base + 3, "others": [base + 1, base + 2], "conds": [rng.choice([["boolv", True], ["eq", g, ["bvv", i, 3]]]) for i in range(3)], "anc": None},  # base+5
+            {"op": "min", "s": base + 5, "e": x, "signed": False, "extra": []},
+            {"op": "eval", "s": base + 5, "e": x, "n": 70, "extra": []},
+        ]
+        steps = steps + pat if base + 5 < 12 else steps
     return steps
 
 
